@@ -160,7 +160,8 @@ class Gen:
             return ("strcat", r.sample(['"s"', '"a b"', '""', '"x\\n"'], r.randint(2, 3)))
         if r.random() < 0.1:
             return ("offsetof", (("struct", "struct", "S"), [], []), r.choice([["f"], ["f", "g"], ["f", 2], ["arr", 1, "g"]]))
-        return ("const", "string", r.choice(['"s"', '"a b"', '"q\\"uote"', '"\\\\"', 'L"w"', '""', 'u8"u"', '"caf\u00e9 \u65e5\u672c"', 'u8"\U0001f600!"', 'L"\u00fc\u00df"', '"\t tab"']))
+        return ("const", "string", r.choice(['"s"', '"a b"', '"q\\"uote"', '"\\\\"', 'L"w"', '""', 'u8"u"', '"caf\u00e9 \u65e5\u672c"', 'u8"\U0001f600!"', 'L"\u00fc\u00df"', '"\t tab"', '"ff\x0cvt\x0bcr\rfs\x1cnel\x85ls\u2028ps\u2029"',
+                                            '"' + "long string literal " * 9 + '"']))
 
     def initlist(self, depth):
         r = self.rng
@@ -427,6 +428,9 @@ class Gen:
         return ("list", ps, r.random() < 0.2)
 
     def typename(self, depth):
+        if self.rng.random() < 0.08:
+            inner = (self.base(), [d for d in self.derivs(1, abstract=True) if d[0] == "ptr"], [])
+            return (("atomic", inner), self.derivs(max(depth - 1, 0), abstract=True), [])
         return (self.base(), self.derivs(depth, abstract=True), self.rng.sample(["const", "volatile"], 1) if self.rng.random() < 0.2 else [])
 
     def emit_base(self, b, tk):
@@ -446,6 +450,14 @@ class Gen:
             tk.add("enum")
             tk.add(b[1])
             return N("Enum", [S(b[1]), NONE])
+        if b[0] == "atomic":
+            # the _Atomic ( type-name ) specifier: in a type name it stays a nested Typename with quals ['_Atomic']
+            tk.adds("_Atomic", "(")
+            ib, iders, _q = b[1]
+            ibn = self.emit_base(ib, tk)
+            chain, _ = self.emit_declarator(iders, None, tk)
+            tk.add(")")
+            return N("Typename", [NONE, strs(["_Atomic"]), NONE, chain(ibn, [])])
         if b[0] == "structdef":
             return self.emit_structdef(b, tk)
         if b[0] == "enumdef":
@@ -1132,7 +1144,7 @@ def layout(tokens, rng, mode="random", filename="f.c", directives=True):
             # a run of one to three directives of every form (with / without the word `line`, with / without a file name,
             # with linemarker flags, indented, separated by blank lines or not)
             for _ in range(rng.choice([1, 1, 1, 2, 2, 3])):
-                nl = rng.randint(1, 9000)
+                nl = rng.choice([1, 1, 2, 3, rng.randint(1, 9000)])      # small numbers too: positions that repeat under another file name
                 emit(rng.choice(["", "", " ", "\t"]))
                 form = rng.randint(0, 3)
                 if form == 0:
